@@ -163,9 +163,18 @@ def search_histories(chk, r, n):
                 target_name, i = names[0], 2  # F2 at Q2 = 40 (nf = 5), computed after the nf = 3 and nf = 4 points
             single = realrun.run(th, cards.obs({target_name: [copy.deepcopy(pts[i])]}, **kw))[target_name][0]
         except Exception as e:
-            chk.extra.setdefault("search_exceptions", {})
-            k = f"tmc{tmc}/{process}:{type(e).__name__}:{str(e)[:80]}"
-            chk.extra["search_exceptions"][k] = chk.extra["search_exceptions"].get(k, 0) + 1
+            # does every point on its own go through?  then the failure is one of the history
+            try:
+                for nm_, lst_ in obs.items():
+                    for p_ in lst_:
+                        realrun.run(th, cards.obs({nm_: [copy.deepcopy(p_)]}, **kw))
+            except Exception:
+                chk.extra.setdefault("search_exceptions", {})
+                k = f"tmc{tmc}/{process}:{type(e).__name__}:{str(e)[:80]}"
+                chk.extra["search_exceptions"][k] = chk.extra["search_exceptions"].get(k, 0) + 1
+                continue
+            sample = dict(TMC=tmc, process=process, pto=pto, sv=sv_kw, observables={k_: v_ for k_, v_ in obs.items()}, points=pts, with_xs=with_xs, error=f"{type(e).__name__}: {e}"[:200])
+            chk.search_case("permuted_extended_vs_single", False, what=f"the run over several points raises {type(e).__name__} although every point alone is computed", data=sample, sample=sample, nontrivial=True)
             continue
         problems = []
         try:
